@@ -69,8 +69,14 @@ def run(R):
                 R.oracle_fail(f"after an abort caused by the patch text, {p!r} is neither in its original nor in its completely patched state", data); break
         else:
             # nothing is lost: every original file still exists somewhere with its bytes, or its section was completed (its new state exists)
+            # what the patch text itself says is removed (the generator's intent may differ: git writes a rename it finds too dissimilar
+            # as a deletion plus a creation, and the deletion is a complete section of its own)
+            removed = set(m.group(1) for m in re.finditer(rb"(?m)^(?:---|\*\*\*) a/([^\t\n]+)[^\n]*\n(?:\+\+\+|---) (?:/dev/null|[^\t\n]+\t(?:1970-01-01|1969-12-31))", text))
+            removed |= set(m.group(1) for m in re.finditer(rb"(?m)^diff --git a/(\S+) b/\S+\ndeleted file mode", text))
             for p, orig in a_.items():
                 if p in got and got[p] in (orig, b_.get(p)):
+                    continue
+                if p in removed and p not in got:
                     continue
                 dests = [q for q, k in ch.items() if k == "rename-to"]
                 moved = any(q in got and got[q] == b_.get(q) for q in dests) and ch.get(p) == "rename"
